@@ -433,13 +433,15 @@ Definition observe_commit_unfixed := observe_commit_with observe_upd_unfixed.
 (* ---- execute.Plugin.Observation; phase: 0 GetCommitReports, 1 GetMessages, 2 Filter ---- *)
 Definition eobs_base (d : dobs) : eobs := mkEobs [] [] true [] 0 [] d.
 
-Definition observe_commit_reports (g : cfg) (i : N) (st : rstate) (d : dobs) : res eobs :=
+(* [lookup] = true: CommitReportsGTETimestamp as it was before the repair of F18d — the on-ramp address of every root's
+   source chain is looked up on that chain's own reader and a missing reader fails the whole query.  After the repair
+   the address emitted with the root is kept for source chains this oracle does not read. *)
+Definition observe_commit_reports_with (lookup : bool) (g : cfg) (i : N) (st : rstate) (d : dobs) : res eobs :=
   if negb (reads g i (c_dest g)) then Ok (eobs_base d)
   else if rs_fail st K_CURSE (c_dest g) then Ok (eobs_base d)
   else if rs_cursed_all st then Ok (eobs_base d)
   else if rs_fail st K_REPORTS (c_dest g) then Err
-  (* CommitReportsGTETimestamp looks up the on-ramp address of every root's source chain on that chain's reader *)
-  else if negb (forallb (fun p => reads g i (fst p)) (rs_reports st)) then Err
+  else if lookup && negb (forallb (fun p => reads g i (fst p)) (rs_reports st)) then Err
   else if existsb (fun p => rs_fail st K_EXECUTED (fst p)) (rs_reports st) then Err
   else Ok (mkEobs (filter (fun p => negb (memN (fst p) (rs_cursed st))) (rs_reports st)) [] true [] 0 [] d).
 
@@ -461,7 +463,8 @@ Definition dest_priced (g : cfg) (st : rstate) : bool :=
   | Some (Some _, Some _), Some _ => true
   | _, _ => false
   end.
-Definition observe_costly (g : cfg) (i : N) (st : rstate) (msgs : list (N * N)) : res N :=
+(* as it was (before the repair of F18c): every oracle runs the observer; without destination reader it fails *)
+Definition observe_costly_unfixed (g : cfg) (i : N) (st : rstate) (msgs : list (N * N)) : res N :=
   let d := c_dest g in
   if negb (reads g i d) then Err
   else if rs_fail st K_LINK d then Err
@@ -469,13 +472,18 @@ Definition observe_costly (g : cfg) (i : N) (st : rstate) (msgs : list (N * N)) 
   else if negb (dest_priced g st) then Err
   else if rs_fail st K_FEECOMP d || rs_fail st K_NATIVE d then Err
   else Ok 0%N.
+(* getMessagesObservation after the repair of F18c: an oracle that does not support the destination observes no
+   costly messages instead of failing *)
+Definition observe_costly (g : cfg) (i : N) (st : rstate) (msgs : list (N * N)) : res N :=
+  if negb (reads g i (c_dest g)) then Ok 0%N else observe_costly_unfixed g i st msgs.
 
 Definition observe_messages_with (ram : cfg -> N -> rstate -> res (list (N * N)))
+           (costlyf : cfg -> N -> rstate -> list (N * N) -> res N)
            (g : cfg) (i : N) (st : rstate) (d : dobs) : res eobs :=
   if is_nil (rs_pending st) then Ok (eobs_base d)
   else
     rbind (ram g i st) (fun msgs =>
-    rbind (observe_costly g i st msgs) (fun costly =>
+    rbind (costlyf g i st msgs) (fun costly =>
       Ok (mkEobs (rs_pending st) msgs true msgs costly [] d))).
 
 Definition observe_filter (g : cfg) (i : N) (st : rstate) (d : dobs) : res eobs :=
@@ -484,16 +492,20 @@ Definition observe_filter (g : cfg) (i : N) (st : rstate) (d : dobs) : res eobs 
        then Err   (* no sender, no call *)
   else Ok (mkEobs [] [] true [] 0 (map (fun p => (fst p, cnt (rs_senders st) (fst p))) (rs_pending st)) d).
 
-Definition observe_exec_with (ram : cfg -> N -> rstate -> res (list (N * N)))
+Definition observe_exec_with (lookup : bool) (ram : cfg -> N -> rstate -> res (list (N * N)))
+           (costlyf : cfg -> N -> rstate -> list (N * N) -> res N)
            (g : cfg) (i : N) (st : rstate) (phase : N) : res eobs :=
   let d := observe_disc g i st in
   if negb (rs_init st) then Ok (eobs_base d)
-  else if N.eqb phase 0 then observe_commit_reports g i st d
-  else if N.eqb phase 1 then observe_messages_with ram g i st d
+  else if N.eqb phase 0 then observe_commit_reports_with lookup g i st d
+  else if N.eqb phase 1 then observe_messages_with ram costlyf g i st d
   else if N.eqb phase 2 then observe_filter g i st d
   else Err.
-Definition observe_exec := observe_exec_with read_all_messages.
-Definition observe_exec_unfixed := observe_exec_with read_all_messages_unfixed.
+Definition observe_exec := observe_exec_with false read_all_messages observe_costly.
+(* the three pre-repair variants, one defect each *)
+Definition observe_exec_unfixed := observe_exec_with false read_all_messages_unfixed observe_costly.   (* F18b *)
+Definition observe_exec_unfixed_c := observe_exec_with false read_all_messages observe_costly_unfixed. (* F18c *)
+Definition observe_exec_unfixed_d := observe_exec_with true read_all_messages observe_costly.          (* F18d *)
 
 (* ---- hypotheses on the values the chains hold (not on roles, not on which calls fail) ---- *)
 Definition cfg_ok (g : cfg) (i : N) : bool :=
@@ -506,7 +518,7 @@ Definition values_ok (st : rstate) : bool :=
   seqnums_ok (rs_reports st) && seqnums_ok (rs_pending st).
 Definition no_failures (st : rstate) : Prop := forall k c, rs_fail st k c = false.
 
-(* recorded findings of C11_exec *)
+(* input classes of the repaired findings F18c / F18d (used by the refutations of the pre-repair functions) *)
 (* F18c: GetMessages phase, something pending, oracle without destination access *)
 Definition f18c_class (g : cfg) (i : N) (st : rstate) (phase : N) : bool :=
   rs_init st && N.eqb phase 1 && negb (is_nil (rs_pending st)) && negb (reads g i (c_dest g)).
